@@ -8,6 +8,9 @@
 //	       observable: open=<sorted, cleaned absolute paths opened>|out=<canon | error>
 //	fsrun  payload: mainPath, source, path1, content1, path2, content2, …
 //	       observable: open=<sorted, cleaned absolute paths opened>|out=<canon | error>
+//	fsseq  payload: share, k, main1, src1, …, maink, srck, path1, content1, …   k evaluations sharing ONE context
+//	       (root cache; share=1: also the import cache) over one file system; observable: the fsrun observables
+//	       of the k evaluations joined by " ;; "
 //	pathfn payload: s, t    observable: Go's path.Clean/filepath.Clean/Join/Dir/Base/Ext/Abs on them
 //
 // The process changes its working directory once, at start, to /tmp/vc16/a/a/a (the model's `cwd`).
@@ -26,6 +29,7 @@ import (
 	"github.com/spf13/afero"
 
 	"github.com/arr-ai/arrai/pkg/ctxfs"
+	"github.com/arr-ai/arrai/pkg/importcache"
 	"github.com/arr-ai/arrai/syntax"
 
 	"verif/harness/hlib"
@@ -135,6 +139,40 @@ func init() {
 		}
 		out, rec := run(fs, p[0], p[1])
 		return "open=" + rec.list() + "|out=" + out
+	})
+
+	// fsseq: several evaluations over ONE file system sharing ONE context (root cache; with share=1 also the
+	// import cache).  payload: share, k, main1, src1, …, maink, srck, path1, content1, …
+	// observable: the per-evaluation observables of fsrun joined by " ;; "
+	hlib.Register("fsseq", func(p []string) string {
+		if cwdErr != nil {
+			return "harness-error:" + cwdErr.Error()
+		}
+		k, err := strconv.Atoi(p[1])
+		if err != nil || len(p) < 2+2*k {
+			return "harness-error:bad payload"
+		}
+		fs := afero.NewMemMapFs()
+		for i := 2 + 2*k; i+1 < len(p); i += 2 {
+			write(fs, p[i], p[i+1])
+		}
+		rec := &recFs{Fs: fs, opened: map[string]bool{}}
+		ctx := ctxfs.SourceFsOnto(hlib.NewCtx(), rec)
+		if p[0] == "1" {
+			ctx = importcache.WithNewImportCache(ctx)
+		}
+		outs := []string{}
+		for j := 0; j < k; j++ {
+			rec.mu.Lock()
+			rec.opened = map[string]bool{}
+			rec.mu.Unlock()
+			out := "error"
+			if v, err := syntax.EvaluateExpr(ctx, p[2+2*j], p[3+2*j]); err == nil {
+				out = hlib.Canon(v)
+			}
+			outs = append(outs, "open="+rec.list()+"|out="+out)
+		}
+		return strings.Join(outs, " ;; ")
 	})
 
 	hlib.Register("pathfn", func(p []string) string {
